@@ -847,13 +847,10 @@ fn rcase(fmt: u8) -> BoxedStrategy<RCase> {
                 big_width,
                 font_ibm_vga,
                 ansimation: ansimation && fmt == ANS,
-                // bin: a variant without any character width counts as "width not given", which the loader deliberately reads as 80 (not bin's own 160):
-                // the differential clause does not apply there, so bin keeps to the variants that state a width
-                free: if fmt == BIN && free.odd_type != 0 && free.data_type != 5 && !variant_has_tinfo_width(free.data_type, free.file_type) {
-                    Free { odd_type: 0, data_type: 0, file_type: 0, ..free }
-                } else {
-                    free
-                },
+                // bin: its natural variant (BinaryText) is the only one that states bin's own default width of 160 without also stating a number of lines;
+                // a record without character width reads as "width not given" = 80 (deliberate, see the property), and the number of lines of a Character / XBin
+                // record becomes the height of a picture without rows. Neither is something the property speaks about: bin keeps its natural variant.
+                free: if fmt == BIN { Free { odd_type: 0, data_type: 0, file_type: 0, ..free } } else { free },
             },
         )
         .boxed()
@@ -931,20 +928,30 @@ fn legit_refusal(c: &WCase, err: &str) -> bool {
     }
 }
 
-/// A failure of a case with history is keyed like the same failure of a fresh buffer when the fresh buffer fails as well;
-/// only when the history is needed the key gets the input class `after_history`.
+/// A failure is keyed like the same failure of the plain document (default font and buffer type, fresh buffer) when that one fails as well;
+/// only when the document state or the history is needed the key gets the input class `doc_state` / `after_history`.
 fn with_history_class(c: &WCase, check: fn(&WCase) -> Verdict) -> Verdict {
     let v = check(c);
-    if c.history == 0 {
+    let Verdict::Fail { key, msg } = &v else {
         return v;
-    }
-    if let Verdict::Fail { key, msg } = &v {
-        let fresh = WCase { history: 0, prev: None, ..c.clone() };
-        if matches!(check(&fresh), Verdict::Fail { key: k, .. } if k == *key) {
-            return v;
+    };
+    let same = |d: &WCase| matches!(check(d), Verdict::Fail { key: k, .. } if k == *key);
+    if c.doc != Doc::default() {
+        let plain = WCase { doc: Doc::default(), ..c.clone() };
+        if !same(&plain) {
+            let f = base_font(&c.doc);
+            return Verdict::fail(
+                format!("{key}|doc_state"),
+                format!("{msg} [font 0 is \"{}\" {}x{}, buffer type {}; the same document with the default font and CP437 passes]", f.name, f.size.width, f.size.height, c.doc.buffer_type),
+            );
         }
-        let how = if c.history == 1 { "buffer was loaded from a file saved with other metadata, then edited" } else { "set_sauce(older record, resize) on a new buffer, then edited" };
-        return Verdict::fail(format!("{key}|after_history"), format!("{msg} [{how}; the same document built fresh passes]"));
+    }
+    if c.history != 0 {
+        let fresh = WCase { history: 0, prev: None, ..c.clone() };
+        if !same(&fresh) {
+            let how = if c.history == 1 { "buffer was loaded from a file saved with other metadata, then edited" } else { "set_sauce(older record, resize) on a new buffer, then edited" };
+            return Verdict::fail(format!("{key}|after_history"), format!("{msg} [{how}; the same document built fresh passes]"));
+        }
     }
     v
 }
@@ -1508,16 +1515,20 @@ fn main() {
     let mut eng = Engine::new("C11");
     eng.rule(
         "meta_roundtrip/writer_split: documents of height {1..=3 | grid heights 1,2,24,25,26,43,50,60,100,200,350,400,480,600,1000 | 1..=1000} (capped to 6000 cells for bin/xb/tnd/adf/idf, to 8000 cells for 15 of 16 ans/asc/pcb/avt documents, 200 rows for idf, 3 for icy), width from {80,160,1..=1000,edges,grid widths}, \
-         buffer history {fresh | loaded from a file saved with other metadata, then edited | set_sauce(older record, resize) then edited: size, ice mode, font 0, content replaced, record texts/LS/AR updated, record font_opt/use_ice left stale}, title/author/group = CP437 bytes 1..=255 of length 0..=35/20/20 (forced maximal and \
+         buffer history {fresh | loaded from a file saved with other metadata, then edited | set_sauce(older record, resize) then edited: size, ice mode, font 0, content replaced, record texts/LS/AR updated, record font_opt/use_ice left stale}, document state {font 0 = default | built-in font page 0..=42 | Viewdata 6x16 | custom 4..=16 x 1..=32, optionally renamed; buffer type CP437 | Unicode | Petscii | Atascii | Viewdata} \
+         (adf/idf/xb refuse fonts they cannot embed: accepted), title/author/group = CP437 bytes 1..=255 of length 0..=35/20/20 (forced maximal and \
          maximal-1 lengths) plus trailing blanks/NULs, 0..=255 comment lines (forced 250..=255; blocks longer than 3 lines repeat a generated pattern of 1..=4 lines) of 0..=64 bytes without interior NUL, ice/letter-spacing/aspect-ratio, font 0 renamed to a SAUCE \
          font name or arbitrary <=22 CP437 bytes, saved by each SAUCE writer (ans asc avt pcb bin xb tnd adf idf icy) and loaded with Buffer::from_bytes; writer_split is biased to the loader defaults \
          so that the differential clause applies. reader_split: generated ans/asc/pcb/avt/bin content (text, line breaks, colour codes, high bytes) ending in SAUCE, COMNT, EOF, SAUCE00, whole fake records, \
-         fake comment blocks, whole fake trailers, or writer-made xb/tnd/adf/idf content, followed by a trailer from the harness' own SAUCE rev.5 encoder (default width / 0 / >1000, ice off, font empty or IBM VGA, \
-         any TInfo2, any LS/AR). size_grid: exhaustive widths {1,2,40,79,80,81,132,160,255,256,320,511,512,640,800,999,1000} x the grid heights x {ans,asc,pcb,avt,tnd,bin} through the metadata round trip. degenerate: all comment counts 0..=255 x content of 0,1,2 bytes x {ans,bin}, and the files that are nothing but [COMNT]+record without EOF. \
+         fake comment blocks, whole fake trailers (and the same markers in the middle of the content), or writer-made xb/tnd/adf/idf content, followed by a trailer from the harness' own SAUCE rev.5 encoder (default width / 0 / >1000, ice off, font empty or IBM VGA, \
+         any TInfo2, any LS/AR incl. the invalid value 3); in half of the records the fields that carry nothing the property lists are arbitrary: FileSize {content length, 0, 1, length-1, length+1, length+2, 2^32-1, random}, \
+         Date {valid, blanks, zeroes, impossible, NULs, random bytes}, TInfo3/4, reserved TFlags bits (whole TFlags where the variant has none), TInfoS behind its terminator (whole TInfoS where the variant has no FontName), \
+         DataType/FileType any pair (width written where that variant keeps it; bin keeps BinaryText); loaded title/author/group/comment lines (and iCE/LS/AR for ASCII, ANSi, BinaryText records) must be the record's. size_grid: exhaustive widths {1,2,40,79,80,81,132,160,255,256,320,511,512,640,800,999,1000} x the grid heights x {ans,asc,pcb,avt,tnd,bin} through the metadata round trip. degenerate: all comment counts 0..=255 x content of 0,1,2 bytes x {ans,bin}, and the files that are nothing but [COMNT]+record without EOF. \
          Non-trivial: >= 1 comment line, or a title/author/group/comment at its maximal length, or (reader_split) marker-like content tail; degenerate: >= 1 comment or empty content. Distinct by case hash.",
     );
     eng.assume("the SAUCE rev. 5 document in /repo/doc is the reference for record layout, trailer arithmetic and for what each DataType/FileType variant carries (ANSiFlags and FontName: ASCII, ANSi, ANSiMation, BinaryText; neither: PCBoard, Avatar, TundraDraw, XBin)");
     eng.assume("BinaryText carries only even widths up to 510 (width/2 in one byte): odd widths are expected back rounded down, a refusal to save wider documents is accepted");
+    eng.assume("a font name longer than the 22 byte FontName field is expected back cut to 22 characters; for hand-built records only title/author/group/comment lines and the flags of ASCII, ANSi and BinaryText records are asserted, nothing about variants the crate's writers never produce");
     eng.assume("font names are compared without trailing blanks; Date and FileSize are not part of the property and are not asserted");
     eng.assume("'picture' = buffer size and, per cell, character, colour indices, attribute bits, font page and the palette RGB of both colours");
     eng.assume("content that by itself ends in a well-formed record is ambiguous for Buffer::from_bytes: its reference picture is taken from the format loader called without SAUCE");
